@@ -31,6 +31,7 @@ def run(tier, seed, replay=None):
     n = 260 if tier == "quick" else 4000
     dist, samples, coq_cases, coq_want = {}, [], [], []
     perm_cases, perm_want, n_sched, n_perm_coq = [], [], 0, 0
+    qtt_cases, qtt_want, n_qtt_coq = [], [], 0
     for i in range(n):
         kind = rng.choice(["reshape", "reshape", "reshape-op", "permute", "permute", "permute-op", "qtt", "qtt-roundtrip"])
         cplx = rng.random() < 0.3
@@ -115,6 +116,8 @@ def run(tier, seed, replay=None):
                 snap = history.Snap(x)
                 q = x.to_qtt(eps)
                 nbits = int(round(math.log2(int(np.prod(N)))))
+                if len(qtt_cases) < (60 if tier == "quick" else 600):
+                    qtt_cases.append("qtt_modes %s" % coqrun.nlist(N)); qtt_want.append(([int(v) for v in q.N], desc))
                 if kind == "qtt":
                     y = q; ref = x.full().reshape([2] * nbits); want_shape = [2] * nbits
                 else:
@@ -147,6 +150,18 @@ def run(tier, seed, replay=None):
             if got != want:
                 V.fail("correspondence(model/impl): final mode order and sequence of swapped bonds of permute differ from the Coq schedule", dict(dsc, model=got, impl=want), failing_input=False)
             else: n_perm_coq += 1
+    # to_qtt on shapes with modes 1, 2, 3 mixed in (kept as they are) - mode sizes only
+    for N in ([1, 4], [2, 8], [3, 4], [4, 1, 2], [8, 3], [16], [2, 2], [1], [32, 2]):
+        try:
+            xq = solverkit.rand_tt_float(rng, N, solverkit.ranks(rng, len(N), 2), torch.float64)
+            qtt_cases.append("qtt_modes %s" % coqrun.nlist(N)); qtt_want.append(([int(v) for v in xq.to_qtt().N], {"op": "to_qtt-shape", "N": N}))
+        except Exception as ex:
+            V.fail("to_qtt raises %s on a shape whose modes are 1, 2, 3 or powers of two" % type(ex).__name__, {"N": N, "exc": str(ex)[:200]})
+    if ok_make and qtt_cases:
+        res = coqrun.eval_nat_lists("C10_q", "From TT Require Import Permute.", "", qtt_cases, shard=100)
+        for got, (want, dsc) in zip(res, qtt_want):
+            if got != want: V.fail("correspondence(model/impl): mode sizes produced by to_qtt differ from the Coq model", dict(dsc, model=got, impl=want), failing_input=False)
+            else: n_qtt_coq += 1
     nviol = V.finish()
     cov = proofcheck.coverage(PID, obl, evaluations=n, distinct_nontrivial=len(dist) + n_coq,
         rule=("reshape of tensors (random ordered factorisations / merges of 6..64 elements with singleton modes anywhere) and operators, permute of tensors and operators (random "
@@ -154,7 +169,7 @@ def run(tier, seed, replay=None):
               "requested mode sizes, well-formedness, error <= %g*eps*||x|| (+1e-11), phase of the largest entry for complex data, dtype, bitwise operand integrity; the mode sizes "
               "returned by reshape are compared with the Coq model of the loop; for permute the bond of every supercore SVD is recorded (from the calling frame) and the sequence is compared "
               "with the Coq bubble schedule, and every SVD result is checked to be an exact factorisation (1e-12) - the hypothesis of the swap theorem") % CONST,
-        samples=samples, distribution=dist, model_shape_agreements=n_coq, permute_schedules_recorded=n_sched, permute_schedules_matching_model=n_perm_coq, known_findings_reproduced=V.known_hit,
+        samples=samples, distribution=dist, model_shape_agreements=n_coq, permute_schedules_recorded=n_sched, permute_schedules_matching_model=n_perm_coq, qtt_shapes_matching_model=n_qtt_coq, known_findings_reproduced=V.known_hit,
         partial=["proved: termination and exact mode sizes of the tensor reshape loop; termination, swap count and final order of permute's schedule; every elementary step (merge, exact split, exact "
                  "swap) preserves all entries. NOT proved: the composition of these steps with the floating-point QR/SVD and the truncation (error <= small multiple of eps) - measured; the "
                  "operator reshape loop and the QTT conversions are covered by measurement only"])
